@@ -201,6 +201,7 @@ func main() {
 	run.Assume("a recovered handler panic is observed through the 'http: panic serving' lines net/http writes to the server log and through the missing response")
 	run.Assume("hostile RTP travels in well-formed SRTP packets (pion marshals the RTP header; the payload, sequence numbers, timestamps, CSRCs, extensions and padding are the harness's); malformed RTP headers reach the classifiers through the pure-parser tier only")
 	run.Assume("watchdogs (60 s per ping/request, 25 min per batch) yield inconclusive, never a violation")
+	run.Assume("galene drops a client when one socket write takes more than 500 ms; on an overloaded machine this hits connections of the harness for reasons no client input explains: state set-ups are retried, a bystander closure is reported only when the same case loses the bystander again in a freshly built state, and a canary lost while the harness process itself was not scheduled for >= 200 ms during the last 5 s is re-established instead of reported")
 	run.Finish("exploration", "A: chunks of 256 parser inputs from (seed, chunk): uniform bytes, structured RTP header + VP8/VP9/AV1/H264 descriptor with inconsistent fields, valid packets truncated at every length with 0-2 bit flips, mutated sdpfrag texts, each under all 8 codec names round-robin; "+
 		"B: the full list (membership state x message kind x {valid, field x {absent,num,bool,array,object,null,huge,deep,unknown,empty}, kind-specific mutations, raw frames, offer composites, random sequences}) split round-robin over 8 server processes, one lane per state; "+
 		"C: every path shape x 9 methods x {existing,nonexistent} x 4 precondition headers with admin credentials, plus pseudo-random segment/credential/header/body combinations, malformed hand-written requests and WHIP session lives; "+
